@@ -169,19 +169,46 @@ func (w *Worker) serialize(t types.Type, v value, out []value, depth int) []valu
 		out = append(out, w.u64Bytes(uint64(len(m.ents)), 64, false)...)
 		ents := append([]*mentry{}, m.ents...)
 		if len(ents) > 1 {
-			keys := make([]string, len(ents))
-			for i, e := range ents {
-				k, ok := canonKey(e.key)
-				if !ok {
-					unsupported("cbor model: map with symbolic keys and more than one entry")
+			allConc := true
+			for _, e := range ents {
+				if _, ok := canonKey(e.key); !ok {
+					allConc = false
 				}
-				keys[i] = k
 			}
-			sort.Slice(ents, func(i, j int) bool {
-				ki, _ := canonKey(ents[i].key)
-				kj, _ := canonKey(ents[j].key)
-				return ki < kj
-			})
+			if allConc {
+				sort.Slice(ents, func(i, j int) bool {
+					ki, _ := canonKey(ents[i].key)
+					kj, _ := canonKey(ents[j].key)
+					return ki < kj
+				})
+			} else {
+				// symbolic keys: canonical order = ascending serialised key, decided by forking on each
+				// comparison (insertion sort; maps of a few entries)
+				if len(ents) > 4 {
+					unsupported("cbor model: map with symbolic keys and more than 4 entries")
+				}
+				ser := make([][]value, len(ents))
+				for i, e := range ents {
+					ser[i] = w.serialize(ut.Key(), e.key, nil, depth+1)
+				}
+				for i := 1; i < len(ents); i++ {
+					for j := i; j > 0; j-- {
+						c := w.bytesCompare(ser[j-1], ser[j])
+						var greater bool
+						switch cv := c.(type) {
+						case uint64:
+							greater = int64(cv) > 0
+						case *Term:
+							greater = w.decideBool(w.tc.BvCmp(OBvSlt, w.tc.BVConst(64, 0), cv), "cbor map key order")
+						}
+						if !greater {
+							break
+						}
+						ents[j-1], ents[j] = ents[j], ents[j-1]
+						ser[j-1], ser[j] = ser[j], ser[j-1]
+					}
+				}
+			}
 		}
 		for _, e := range ents {
 			out = w.serialize(ut.Key(), e.key, out, depth+1)
